@@ -37,6 +37,11 @@ def scenarios(pid, thorough):
         # exit callbacks that take a while (F17: the signal of terminate() arrives inside them)
         out.append(dict(kind='terminate', threads=True, procs=2, situation='idle', slowexit=True))
         out.append(dict(kind='gc'))
+        # the termination signal is configurable (REMAP_SIGTERM, read when billiard is imported; SIGTERM
+        # itself is then ignored by the workers): every path that ends workers must use the configured one
+        for threads, sit in ((True, 'mid_task'), (False, 'idle'), (True, 'swallow')) if thorough else \
+                ((True, 'mid_task'),):
+            out.append(dict(kind='terminate', threads=threads, procs=2, situation=sit, remap='SIGQUIT'))
     return out
 
 
@@ -70,9 +75,21 @@ def run(ctx, pid):
         scen = fast + [s for s in slow if s['procs'] == 2 and s['when'] == 'now'
                        and (s['quota'] == 0 or s['mix'] == ['apply'])][:3]
     scale = sandbox.time_scale()
-    rc, data, log = sandbox.run_driver('harness.shutdown_main', [ctx.tier, json.dumps(scen)],
-                                       timeout=(3000 if thorough else 900) * scale,
-                                       env={'VERIF_TIME_SCALE': str(scale)})
+    def drive(scs, timeout):
+        # one interpreter per value of the import-time configuration
+        out = []
+        for remap in sorted(set(s.get('remap', '') for s in scs)):
+            part = [s for s in scs if s.get('remap', '') == remap]
+            env = {'VERIF_TIME_SCALE': str(scale)}
+            if remap:
+                env['REMAP_SIGTERM'] = remap
+            rc, d, log = sandbox.run_driver('harness.shutdown_main', [ctx.tier, json.dumps(part)],
+                                            timeout=timeout, env=env)
+            if rc != 0 or d is None:
+                return rc or 2, None, log
+            out += d
+        return 0, out, ''
+    rc, data, log = drive(scen, (3000 if thorough else 900) * scale)
     if rc != 0 or data is None:
         sandbox.driver_failed('shutdown', rc, log)
     forms = FORMULAS[pid]
@@ -98,8 +115,7 @@ def run(ctx, pid):
     for key, (d, names) in pending.items():
         still = set(names)
         for attempt in range(2):
-            rc2, again, _ = sandbox.run_driver('harness.shutdown_main', [ctx.tier, json.dumps([d['scenario']])],
-                                               timeout=300 * scale, env={'VERIF_TIME_SCALE': str(scale)})
+            rc2, again, _ = drive([d['scenario']], 300 * scale)
             if rc2 != 0 or not again:
                 break
             # (a broken scenario may fail differently each time -- hang once, take the host down the
